@@ -206,3 +206,46 @@ Lemma qn_maxvalue_witness :
   validate_exact node_params (repeat 255%N 80) 1 0 2 = VR true (QN 6) /\
   validate_float node_params (repeat 255%N 80) 1 0 2 = VR true (QN 6).
 Proof. vm_compute. split; reflexivity. Qed.
+
+Lemma validate_float_transport p (pi : bytes) h wm ts :
+  bytes_ok pi -> length pi = prove_size ->
+  validate_float p (transport pi) h wm ts = validate_float p pi h wm ts.
+Proof. exact (validate_transport qn_float p pi h wm ts). Qed.
+
+Lemma validate_float_function p (pi pi' : bytes) h wm ts :
+  proof2hash (pad80 pi) = proof2hash (pad80 pi') ->
+  validate_float p pi h wm ts = validate_float p pi' h wm ts.
+Proof. exact (validate_function qn_float p pi pi' h wm ts). Qed.
+
+Lemma helper_unpadded_refuted : exists pi : bytes,
+  length pi = prove_size /\ bytes_okb pi = true /\
+  helper_prove2value (big_of_bytes pi) <> bev (proof2hash pi).
+Proof. eexists. exact helper_unpadded_witness. Qed.
+
+Lemma qn_maxvalue_refuted : exists p (pi : bytes) h wm ts,
+  length pi = prove_size /\
+  validate_exact p pi h wm ts = VR true (QN (maxqn p + 1)) /\
+  validate_float p pi h wm ts = VR true (QN (maxqn p + 1)).
+Proof.
+  exists node_params, (repeat 255%N 80), 1, 0, 2. split; [reflexivity|]. exact qn_maxvalue_witness.
+Qed.
+
+Lemma qn_float_refuted : exists p (pi : bytes) h wm ts,
+  length pi = prove_size /\ (Z.of_N (vrf_value pi) < max256) /\
+  validate_exact p pi h wm ts = VR true (QN (maxqn p)) /\
+  validate_float p pi h wm ts = VR true (QN (maxqn p + 1)).
+Proof.
+  exists node_params, float_witness, 1, 0, 10.
+  split; [reflexivity|]. split; [vm_compute; reflexivity|]. exact qn_float_witness.
+Qed.
+
+Lemma model_example :
+  (exists pi : bytes, bytes_okb pi = true /\ length pi = prove_size /\ hd 1%N pi = 0%N /\
+     pad80 (transport pi) = pi /\ length (transport pi) = 79%nat) /\
+  validate_exact node_params (51%N :: repeat 0%N 79) 1 0 10 = VR true (QN 4) /\
+  validate_float node_params (51%N :: repeat 0%N 79) 1 0 10 = VR true (QN 4).
+Proof.
+  split.
+  - exists (0 :: 7 :: repeat 1 78)%N. vm_compute. repeat split.
+  - vm_compute. split; reflexivity.
+Qed.
